@@ -328,6 +328,18 @@ func candidates(c *call) []*call {
 			}
 		}
 	}
+	// replace a letter by a
+	for i := range c.seqs {
+		for j := len(c.seqs[i]) - 1; 0 <= j; j-- {
+			if c.seqs[i][j] != 'a' {
+				d := c.clone()
+				d.seqs[i] = c.seqs[i][:j] + "a" + c.seqs[i][j+1:]
+				if d.valid() {
+					out = append(out, d)
+				}
+			}
+		}
+	}
 	// write a sequence / the result as a plain list when the failure does not need the type
 	upper := false
 	for _, q := range c.seqs {
